@@ -124,8 +124,6 @@ module Coq_Pos :
 
   val coq_Ndouble : n -> n
 
-  val coq_lor : positive -> positive -> positive
-
   val coq_land : positive -> positive -> n
 
   val iter_op : ('a1 -> 'a1 -> 'a1) -> positive -> 'a1 -> 'a1
@@ -149,8 +147,6 @@ module N :
 
   val compare : n -> n -> comparison
 
-  val eqb : n -> n -> bool
-
   val leb : n -> n -> bool
 
   val ltb : n -> n -> bool
@@ -170,8 +166,6 @@ module N :
   val div_eucl : n -> n -> n * n
 
   val modulo : n -> n -> n
-
-  val coq_lor : n -> n -> n
 
   val coq_land : n -> n -> n
 
@@ -269,12 +263,6 @@ val sx_err : string -> sx
 
 val sx_nat : nat -> sx
 
-val tab64_N : n list
-
-val tab64 : nat list
-
-val suffix_to_bits : (n * bool list) list
-
 type 'a res =
 | Ok of 'a
 | Err of n
@@ -334,14 +322,6 @@ val write_bytes : n list -> bs -> bs * unit res
 
 val write_unary : nat -> bs -> bs * unit res
 
-val smear : n -> n
-
-val debruijn : n
-
-val min_bits_required : nat list -> n -> nat
-
-val write_lim_uint : nat list -> n -> n -> bs -> bs * unit res
-
 val get_bit : nat -> bs -> bool
 
 val read_bit : bs -> bs * bool res
@@ -378,8 +358,6 @@ val read_unary_loop : nat -> bs -> nat -> bs * nat res
 
 val read_unary : bs -> bs * nat res
 
-val read_lim_uint : nat list -> n -> bs -> bs * n res
-
 val reset_counter : bs -> bs
 
 val abs0 : bs -> bits
@@ -390,6 +368,8 @@ val nibbles : nat -> bits -> n list
 
 val to_fift : bits -> n list * bool
 
+val strip_tag : n -> bits option
+
 val concat_nibbles : n list -> bits
 
 val out_unit : unit res -> sx
@@ -398,28 +378,28 @@ val out_of : ('a1 -> sx) -> 'a1 res -> sx
 
 val to_fift_sx : bits -> sx
 
-val step : nat list -> bs -> sx -> bs * sx
+val step : bs -> sx -> bs * sx
 
-val run_ops : nat list -> bs -> sx list -> sx list
+val run_ops : bs -> sx list -> sx list
 
-val run_seq : nat list -> sx -> sx
+val run_seq : sx -> sx
 
 val hex_to_int : n -> n option
 
 val hex_digits : n list -> n list option
 
-val lookup_suffix : (n * bits) list -> n -> bits option
+val ref_suffix : n -> bits option
 
-val from_fift_chars : (n * bits) list -> n list -> bits option
+val from_fift_chars : n list -> bits option
 
 val hex_char : n -> n
 
 val to_fift_chars : bits -> n list
 
-val run_from_fift : (n * bits) list -> sx -> sx
+val run_from_fift : sx -> sx
 
 val run_to_fift : sx -> sx
 
-val run_minbits : nat list -> sx -> sx
+val run_minbits : sx -> sx
 
 val run : string -> sx -> sx
